@@ -10,7 +10,7 @@ import (
 )
 
 func init() {
-	register("C19", 14, "Decided (for every path of the current source): (R1) a session is created only when the init header matched and neither the cancel sub-sequence nor the cannot-open text is in the same chunk; (R2) every place that sets 'stopped' arms the end of the session on every path — the cleanup timer, 'cleaned' directly, or killing the helper (whose exit watcher arms the timer); (R3) every error path and the helper's exit path send the cancel sequence to the server, and a helper that cannot be started leads to the error path; (R4) the output pump's decline condition and the input gate use the same two flags, the decline happens only when both are set; (R5) 'cleaned' is set only by the timer callback and by the cancelled-before-start edge. Not decided: liveness for all event orders, the 500 ms bound.",
+	register("C19", 14, "Decided (for every path of the current source): (R1) a session is created only when the init header matched and neither the cancel sub-sequence nor the cannot-open text is in the same chunk; (R2) every place that sets 'stopped' arms the end of the session on every path — the cleanup timer, 'cleaned' directly, or killing the helper (whose exit watcher arms the timer); (R3) every error path and the helper's exit path send the cancel sequence to the server, and a helper that cannot be started leads to the error path; (R4) the output pump's decline condition and the input gate use the same two flags, the decline happens only when both are set; (R5) 'cleaned' is set only by the timer callback and by the cancelled-before-start edge. Not decided: liveness for all event orders, the 500 ms bound. (R7) the bridge: remote->helper on the helper-running edge, helper->remote as exactly buffer[:n], loop left only for a reason, helper published before the loop, pipes and writers installed before use, header type selects sz/rz, Ctrl-C and the start-up check reach the error path, pre-start end only on cancel / cannot-open, kill-iff-helper.",
 		func(c *Ctx) {
 			c.run("C19-R1", "GUARD-DOM: header detection with cancel / cannot-open veto", c19R1)
 			c.run("C19-R2", "MUST-PASS: whoever stops the session arms its end", c19R2)
